@@ -62,8 +62,29 @@ def build_harness(profile="debug"):
     return os.path.join(TARGET, profile, "cached-verif-harness"), time.time() - t0
 
 
-def run_harness(binary, args, timeout=600):
-    p = subprocess.run([binary] + args, capture_output=True, text=True, timeout=timeout)
+class HarnessHung(Exception):
+    """the harness did not finish: some event never completed (a call, a worker command or a sweep is stuck)"""
+    def __init__(self, partial):
+        Exception.__init__(self, "harness hung")
+        self.partial = partial
+
+
+def run_harness(binary, args, timeout=300):
+    try:
+        p = subprocess.run([binary] + args, capture_output=True, text=True, timeout=timeout)
+    except subprocess.TimeoutExpired as e:
+        out = e.stdout or b""
+        if isinstance(out, bytes):
+            out = out.decode("utf-8", "replace")
+        recs = []
+        for line in out.splitlines():
+            line = line.strip()
+            if line.startswith("{"):
+                try:
+                    recs.append(json.loads(line))
+                except ValueError:
+                    pass
+        raise HarnessHung(recs)
     if p.returncode != 0:
         raise Broken("harness-run", "harness exited with %d: %s" % (p.returncode, p.stderr[-3000:]))
     out = []
